@@ -59,7 +59,8 @@ theorem openScript_spec (o : Oracle W) (w : W) (t : FdTable) (path : Nat) :
   by_cases hd : ((o.deny w).2 || !t.inLimit (t.minUnused 0)) = true
   · rw [if_pos hd]; exact ⟨rfl, fun _ _ => rfl, fun n h => by cases h⟩
   rw [if_neg hd]
-  cases hr : o.resolve (o.deny w).1 { path := path, args := fileIn } with
+  rw [show dotOpenCloexec = true from rfl]
+  cases hr : o.resolve (o.deny w).1 { path := path, args := dotOpenArgs } with
   | mk w1 r =>
     cases r with
     | error e => exact ⟨rfl, fun _ _ => rfl, fun n h => by cases h⟩
